@@ -1,252 +1,23 @@
 import CssVerif.Lemmas.SelFinish
-/-! the commit of `Selector._setSelectorText` (`_getUsedNamespaces`) never raises on the items of a written selector -/
+/-! the commit of `Selector._setSelectorText` (`_getUsedNamespaces`) never raises -/
 namespace CssVerif.Sel
 open CssVerif.Gen.C16 CssVerif.Proto
 
-/-- `_getUsedUris` can take `val[0]` of this item -/
-def usedOkItem (it : Item) : Bool :=
-  !(endsWith it.typ sfxSelector) ||
-    (match it.val with
-     | .ns _ _ => true
-     | .str (_ :: _) => true
-     | _ => false)
-
-def AllOk (rs : List Item) : Prop := ∀ it ∈ rs, usedOkItem it = true
-
-theorem AllOk.cons {it : Item} {rs : List Item} (h : usedOkItem it = true) (hr : AllOk rs) : AllOk (it :: rs) := by
-  intro x hx
-  simp only [List.mem_cons] at hx
-  rcases hx with rfl | hx
-  · exact h
-  · exact hr x hx
-
-theorem AllOk.tail {it : Item} {rs : List Item} (h : AllOk (it :: rs)) : AllOk rs :=
-  fun x hx => h x (by simp [hx])
-
-theorem AllOk.nil : AllOk [] := by intro x hx; simp at hx
-
-theorem usedUris_ok (l : List Item) (h : AllOk l) : ∃ us, usedUris l = .ok us := by
+theorem usedUris_ok (l : List Item) : ∃ us, usedUris l = .ok us := by
   induction l with
   | nil => exact ⟨[], rfl⟩
   | cons it t ih =>
-    obtain ⟨us, hus⟩ := ih h.tail
-    have hit := h it (by simp)
-    obtain ⟨v, ty⟩ := it
-    simp only [usedOkItem, Bool.or_eq_true, Bool.not_eq_true'] at hit
-    by_cases hs : endsWith ty sfxSelector = true
-    · rcases hit with hit | hit
-      · rw [hs] at hit; cases hit
-      · cases v with
-        | ns u n => exact ⟨u :: us, by simp [usedUris, hus, hs, bind, Except.bind, pure, Except.pure]⟩
-        | str x =>
-          cases x with
-          | nil => simp at hit
-          | cons c r => exact ⟨.uri [c] :: us, by simp [usedUris, hus, hs, bind, Except.bind, pure, Except.pure]⟩
-        | comment x => simp at hit
-    · have hs' : endsWith ty sfxSelector = false := by simpa using hs
-      by_cases hu : (ty == tyUniversal) = true
-      · cases v with
-        | ns u n => exact ⟨u :: us, by simp [usedUris, hus, hs', hu, bind, Except.bind, pure, Except.pure]⟩
-        | str x => exact ⟨us, by simp [usedUris, hus, hs', hu, bind, Except.bind, pure, Except.pure]⟩
-        | comment x => exact ⟨us, by simp [usedUris, hus, hs', hu, bind, Except.bind, pure, Except.pure]⟩
-      · have hu' : (ty == tyUniversal) = false := by simpa using hu
-        exact ⟨us, by simp [usedUris, hus, hs', hu', bind, Except.bind, pure, Except.pure]⟩
+    obtain ⟨us, hus⟩ := ih
+    simp only [usedUris, hus, bind, Except.bind, pure, Except.pure]
+    split
+    · split
+      · exact ⟨_, rfl⟩
+      · exact ⟨_, rfl⟩
+    · exact ⟨_, rfl⟩
 
-theorem usedNamespaces_ok (ns : NsMap) (l : List Item) (h : AllOk l) : ∃ used, usedNamespaces ns l = .ok used := by
-  obtain ⟨us, hus⟩ := usedUris_ok l h
+theorem usedNamespaces_ok (ns : NsMap) (l : List Item) : ∃ used, usedNamespaces ns l = .ok used := by
+  obtain ⟨us, hus⟩ := usedUris_ok l
   exact ⟨ns.filter fun pu => us.contains (.uri pu.2), by
     simp [usedNamespaces, hus, bind, Except.bind, pure, Except.pure]⟩
-
-/-- an item whose type does not end in `-selector` -/
-theorem usedOk_plain (v : Val) (ty : Cps) (h : endsWith ty sfxSelector = false) : usedOkItem ⟨v, ty⟩ = true := by
-  simp [usedOkItem, h]
-
-theorem usedOk_ns (u : Uri) (n ty : Cps) : usedOkItem ⟨.ns u n, ty⟩ = true := by simp [usedOkItem]
-
-theorem fillQuiet_allOk (rs : List Item) (f : List Fill) (h : AllOk rs) : AllOk (fillQuiet rs f) := by
-  induction f generalizing rs with
-  | nil => exact h
-  | cons x t ih =>
-    cases x with
-    | ws v => exact ih _ h
-    | cm v => exact ih _ (AllOk.cons (usedOk_plain _ _ (by simp)) h)
-
-theorem fillDesc_allOk (rs : List Item) (f : List Fill) (h : AllOk rs) : AllOk (fillDesc rs f) := by
-  induction f generalizing rs with
-  | nil => exact h
-  | cons x t ih =>
-    cases x with
-    | ws v => exact ih _ (AllOk.cons (usedOk_plain _ _ (by simp)) h)
-    | cm v => exact ih _ (AllOk.cons (usedOk_plain _ _ (by simp)) h)
-
-theorem cmPush_allOk (rs : List Item) (cs : List Cps) (h : AllOk rs) : AllOk (cmPush rs cs) := by
-  induction cs generalizing rs with
-  | nil => exact h
-  | cons x t ih => exact ih _ (AllOk.cons (usedOk_plain _ _ (by simp)) h)
-
-theorem typeSel_item_ok (ns : NsMap) (neg : Bool) (t : TypeSel) : usedOkItem (t.item ns neg) = true := by
-  obtain ⟨pfx, name⟩ := t
-  cases name <;> simp [TypeSel.item, usedOkItem]
-
-theorem AttOp.item_ok (o : AttOp) : usedOkItem o.item = true := by
-  cases o <;> exact usedOk_plain _ _ (by simp [AttOp.item, AttOp.tok])
-
-theorem AttVal.item_ok (v : AttVal) : usedOkItem v.item = true := by
-  cases v <;> exact usedOk_plain _ _ (by simp [AttVal.item])
-
-theorem Attr.rpush_allOk (ns : NsMap) (a : Attr) (ha : a.ok ns = true) (rs : List Item) (h : AllOk rs) :
-    AllOk (a.rpush ns rs) := by
-  simp only [Attr.ok, Bool.and_eq_true] at ha
-  have hname : usedOkItem (a.nameItem ns) = true := by
-    have hne : a.name ≠ [] := by
-      intro h0
-      have := ha.1.1.2
-      simp [nameOk, h0] at this
-    cases hn : a.name with
-    | nil => exact absurd hn hne
-    | cons c r => cases hp : a.pfx <;> simp [Attr.nameItem, hp, hn, usedOkItem]
-  have h1 : AllOk (fillQuiet (a.nameItem ns :: fillQuiet (⟨.str [91], tyAttrStart⟩ :: rs) a.f1) a.f2) :=
-    fillQuiet_allOk _ _ (AllOk.cons hname (fillQuiet_allOk _ _ (AllOk.cons (usedOk_plain _ _ (by simp)) h)))
-  simp only [Attr.rpush]
-  cases hov : a.opv with
-  | none => exact AllOk.cons (usedOk_plain _ _ (by simp)) h1
-  | some q =>
-    obtain ⟨o, f3, v, f4⟩ := q
-    exact AllOk.cons (usedOk_plain _ _ (by simp))
-      (fillQuiet_allOk _ _ (AllOk.cons (AttVal.item_ok v) (fillQuiet_allOk _ _ (AllOk.cons (AttOp.item_ok o) h1))))
-
-theorem pseudoItem_ok (two : Bool) (n : Cps) : usedOkItem (pseudoItem two n) = true := by
-  unfold pseudoItem
-  split
-  · exact usedOk_plain _ _ (by simp)
-  · cases two <;> exact usedOk_plain _ _ (by simp [pseudoTT])
-
-theorem argPush_allOk (rs : List Item) (args : List ArgTok) (h : AllOk rs) : AllOk (argPush rs args) := by
-  induction args generalizing rs with
-  | nil => exact h
-  | cons a t ih =>
-    rw [argPush_cons]
-    apply ih
-    cases a with
-    | plus =>
-      cases rs with
-      | nil => exact AllOk.cons (usedOk_plain _ _ (by simp)) h
-      | cons it r =>
-        obtain ⟨v, ty⟩ := it
-        cases v with
-        | str s =>
-          simp only [argPush]
-          split
-          · exact AllOk.cons (usedOk_plain _ _ (by simp)) h.tail
-          · exact AllOk.cons (usedOk_plain _ _ (by simp)) h
-        | comment s => exact AllOk.cons (usedOk_plain _ _ (by simp)) h
-        | ns u n => exact AllOk.cons (usedOk_plain _ _ (by simp)) h
-    | minus => exact AllOk.cons (usedOk_plain _ _ (by simp)) h
-    | num v => exact AllOk.cons (usedOk_plain _ _ (by simp)) h
-    | dim v => exact AllOk.cons (usedOk_plain _ _ (by simp)) h
-    | str raw => exact AllOk.cons (usedOk_plain _ _ (by simp)) h
-    | ident v => exact AllOk.cons (usedOk_plain _ _ (by simp)) h
-    | ws v =>
-      cases rs with
-      | nil => exact h
-      | cons it r =>
-        simp only [argPush]
-        split
-        · exact h
-        · exact AllOk.cons (usedOk_plain _ _ (by simp [sItem])) h
-    | cm v => exact AllOk.cons (usedOk_plain _ _ (by simp [cmItem])) h
-
-theorem funcPush_allOk (two : Bool) (f : Cps) (args : List ArgTok) (rs : List Item) (h : AllOk rs) :
-    AllOk (funcPush two f args rs) := by
-  refine AllOk.cons (usedOk_plain _ _ (by simp)) (argPush_allOk _ _ (AllOk.cons ?_ h))
-  cases two <;> exact usedOk_plain _ _ (by simp [pseudoTT])
-
-theorem NegArg.rpush_allOk (ns : NsMap) (x : NegArg) (hx : x.ok ns = true) (rs : List Item) (h : AllOk rs) :
-    AllOk (x.rpush ns rs) := by
-  cases x with
-  | type t => exact AllOk.cons (typeSel_item_ok ns true t) h
-  | id v => exact AllOk.cons (usedOk_plain _ _ (by simp)) h
-  | cls n => exact AllOk.cons (usedOk_plain _ _ (by simp)) h
-  | attr a => exact Attr.rpush_allOk ns a hx rs h
-  | pseudo two n => exact AllOk.cons (pseudoItem_ok two n) h
-  | func two f args => exact funcPush_allOk two f args rs h
-
-theorem Simple.rpush_allOk (ns : NsMap) (s : Simple) (hs : s.ok ns = true) (rs : List Item) (h : AllOk rs) :
-    AllOk (s.rpush ns rs) := by
-  cases s with
-  | id v => exact AllOk.cons (usedOk_plain _ _ (by simp)) h
-  | cls n => exact AllOk.cons (usedOk_plain _ _ (by simp)) h
-  | attr a => exact Attr.rpush_allOk ns a hs rs h
-  | pseudo two n => exact AllOk.cons (pseudoItem_ok two n) h
-  | func two f args => exact funcPush_allOk two f args rs h
-  | not fv f1 x f2 =>
-    simp only [Simple.ok, Bool.and_eq_true] at hs
-    exact AllOk.cons (usedOk_plain _ _ (by simp))
-      (fillQuiet_allOk _ _ (NegArg.rpush_allOk ns x hs.1.2 _
-        (fillQuiet_allOk _ _ (AllOk.cons (usedOk_plain _ _ (by simp)) h))))
-
-theorem restOk_parts (ns : NsMap) (cs : List Cps) (s : Simple) (t : List (List Cps × Simple))
-    (hl : restOk ns ((cs, s) :: t) = true) : s.ok ns = true ∧ restOk ns t = true := by
-  cases t with
-  | nil => simp only [restOk, Bool.and_eq_true] at hl; exact ⟨hl.2, rfl⟩
-  | cons y u => simp only [restOk, Bool.and_eq_true] at hl; exact ⟨hl.1.1.2, hl.2⟩
-
-theorem restPush_allOk (ns : NsMap) (l : List (List Cps × Simple)) (hl : restOk ns l = true) (rs : List Item)
-    (h : AllOk rs) : AllOk (restPush ns rs l) := by
-  induction l generalizing rs with
-  | nil => exact h
-  | cons x t ih =>
-    obtain ⟨cs, s⟩ := x
-    obtain ⟨hs, ht⟩ := restOk_parts ns cs s t hl
-    exact ih ht _ (Simple.rpush_allOk ns s hs _ (cmPush_allOk _ _ h))
-
-theorem Compound.rpush_allOk (ns : NsMap) (c : Compound) (hc : c.ok ns = true) (rs : List Item) (h : AllOk rs) :
-    AllOk (c.rpush ns rs) := by
-  obtain ⟨head, rest⟩ := c
-  simp only [Compound.ok, Bool.and_eq_true] at hc
-  cases head with
-  | some t => exact restPush_allOk ns rest hc.1.2 _ (AllOk.cons (typeSel_item_ok ns false t) h)
-  | none => exact restPush_allOk ns rest hc.1.2 _ h
-
-theorem Comb.item_ok (o : Comb) : usedOkItem o.item = true := by
-  cases o <;> exact usedOk_plain _ _ (by simp)
-
-theorem putComb_allOk (o : Comb) (rs : List Item) (h : AllOk rs) : AllOk (putComb o rs) := by
-  unfold putComb
-  split
-  · split
-    · exact AllOk.cons (Comb.item_ok o) h.tail
-    · exact AllOk.cons (Comb.item_ok o) h
-  · exact AllOk.cons (Comb.item_ok o) h
-
-theorem Gap.rpush_allOk (g : Gap) (rs : List Item) (h : AllOk rs) : AllOk (g.rpush rs) := by
-  obtain ⟨pre, op⟩ := g
-  cases op with
-  | none => exact fillDesc_allOk _ _ h
-  | some q => exact fillQuiet_allOk _ _ (putComb_allOk _ _ (fillDesc_allOk _ _ h))
-
-theorem morePush_allOk (ns : NsMap) (l : List (Gap × Compound)) (hl : l.all (fun gc => gc.1.ok && gc.2.ok ns) = true)
-    (rs : List Item) (h : AllOk rs) : AllOk (morePush ns rs l) := by
-  induction l generalizing rs with
-  | nil => exact h
-  | cons x t ih =>
-    simp only [List.all_cons, Bool.and_eq_true] at hl
-    exact ih hl.2 _ (Compound.rpush_allOk ns x.2 hl.1.2 _ (Gap.rpush_allOk x.1 _ h))
-
-theorem dropBlank_allOk (rs : List Item) (h : AllOk rs) : AllOk (dropBlank rs) := by
-  unfold dropBlank
-  split
-  · split
-    · exact h.tail
-    · exact h
-  · exact h
-
-theorem Sel.items_allOk (ns : NsMap) (s : Sel) (hs : s.ok ns = true) : AllOk (s.items ns) := by
-  simp only [Sel.ok, Bool.and_eq_true] at hs
-  have : AllOk (s.rpush ns) :=
-    fillDesc_allOk _ _ (morePush_allOk ns _ hs.1.2 _ (Compound.rpush_allOk ns _ hs.1.1.2 _ (fillQuiet_allOk _ _ AllOk.nil)))
-  intro it hit
-  simp only [Sel.items, List.mem_reverse] at hit
-  exact dropBlank_allOk _ this it hit
 
 end CssVerif.Sel
